@@ -275,8 +275,8 @@ def gain(ctx, rule="C06.gain"):
     for rel, qn in MEAS_FUNCS:
         f = ctx.tree.func(rel, qn)
         invs = [n for n in walk_no_nested(f.node) if isinstance(n, ast.Call) and (dotted(n.func) or "").endswith("linalg.inv") and n.args]
-        ctx.require(len(invs) >= 2, f"{qn}: fewer than two matrix inverses found")
-        texts = {ast.unparse(n.args[0]).replace(" ", "") for n in invs}
+        ctx.require(len(invs) >= 1, f"{qn}: no matrix inverse found")
+        texts = {ast.unparse(expand_locals(f.node, n.args[0])).replace(" ", "") for n in invs}
         ok = len(texts) == 1
         ctx.ob(rule, f.site, ok, "" if ok else f"the update uses inverses of different matrices {sorted(texts)}: covariance and "
                "mean are conditioned with different gains (the state is no longer the conditional state of the outcome)",
@@ -284,6 +284,30 @@ def gain(ctx, rule="C06.gain"):
         noise = all(("+" in t) for t in texts)
         ctx.ob(rule, f.site, noise, "" if noise else f"an inverse {sorted(texts)} lacks the measurement-noise term",
                role="noise-term", line=invs[0].lineno)
+        # the conditional mean is prior mean of the kept block + gain * (outcome - prior mean of the MEASURED block): the new
+        # means derive from both blocks of the chopped mean vector
+        rdm = rd_of(f.node)
+        blocks = {}
+        for ds in rdm.defs_at.values():
+            for d in ds:
+                if d.kind == "unpack" and isinstance(d.value, ast.Call) and \
+                        (dotted(d.value.func) or "").startswith("ops.chop_in_blocks_vector") and d.index:
+                    blocks.setdefault(d.index[0], set()).add(d)
+        sinks = [n.args[0] for n in walk_no_nested(f.node) if isinstance(n, ast.Call) and dotted(n.func) == "self.fromsmean" and n.args] + \
+                [n.value for n in walk_no_nested(f.node) if isinstance(n, ast.Assign) and dotted(n.targets[0]) == "self.means"]
+        if blocks and sinks:
+            used = set()
+            for sk in sinks:
+                dsk = derives(f.node, sk)
+                for k_, dset in blocks.items():
+                    if dset & dsk.defs:
+                        used.add(k_)
+            ok = {0, 1} <= used
+            ctx.ob(rule, f.site, ok, "" if ok else "the new means do not depend on the prior mean of the measured block "
+                   f"(blocks of the chopped mean vector used: {sorted(used)}): the update is gain * outcome instead of "
+                   "gain * (outcome - prior mean)", role="innovation", line=invs[0].lineno)
+        else:
+            ctx.na(rule, f.site, "mean update (chop_in_blocks_vector -> fromsmean / self.means) not recognised")
         per_file.setdefault(rel, []).append((qn, texts))
     ctx.floor(rule, 10)
 
